@@ -394,7 +394,15 @@ const (
 	kReturn
 )
 
-func (p *Path) visit(fr *frame, instr ssa.Instruction) cont {
+func (p *Path) visit(fr *frame, instr ssa.Instruction) (res cont) {
+	defer func() {
+		if r := recover(); r != nil {
+			if s, ok := r.(string); ok && strings.HasPrefix(s, "getPath") {
+				panic(fmt.Sprintf("%s | executing %s at %s in %s", s, instr.String(), p.where(fr, instr.Pos()), fr.fn.String()))
+			}
+			panic(r)
+		}
+	}()
 	switch in := instr.(type) {
 	case *ssa.DebugRef:
 	case *ssa.UnOp:
@@ -455,7 +463,14 @@ func (p *Path) visit(fr *frame, instr ssa.Instruction) cont {
 		v := fr.get(in.X)
 		panic(goPanic{V: v, Msg: "explicit panic: " + p.describe(v), Where: p.where(fr, in.Pos())})
 	case *ssa.Send:
-		p.events = append(p.events, "chan-send at "+p.where(fr, in.Pos()))
+		// buffered channel, single thread: a send appends; a full (or nil) channel would block forever
+		ch := fr.get(in.Chan).(ChanV)
+		st := p.chans[ch.ID]
+		if st == nil || len(st.buf) >= st.cap {
+			p.unsupported(fr, in.Pos(), "send on a full, unbuffered or nil channel (would block; no scheduler is modelled)")
+		}
+		p.sideMods++
+		st.buf = append(st.buf, fr.get(in.X))
 	case *ssa.Store:
 		ptr := p.rp(fr, fr.get(in.Addr), in.Pos())
 		if ptr.IsNil() {
@@ -493,6 +508,12 @@ func (p *Path) visit(fr *frame, instr ssa.Instruction) cont {
 		p.note("go-statement-skipped:" + p.where(fr, in.Pos()))
 	case *ssa.MakeChan:
 		p.nObj++
+		sz := fr.get(in.Size).(*Term)
+		if !sz.c {
+			p.unsupported(fr, in.Pos(), "channel with symbolic capacity")
+		}
+		p.chans[p.nObj] = &chanState{cap: int(sz.u)}
+		p.sideMods++
 		fr.env[in] = ChanV{ID: p.nObj}
 	case *ssa.Alloc:
 		t := in.Type().(*types.Pointer).Elem()
@@ -900,7 +921,18 @@ func (p *Path) unop(fr *frame, in *ssa.UnOp) Value {
 	case token.XOR:
 		return p.tb.BVNot(x.(*Term))
 	case token.ARROW:
-		p.unsupported(fr, in.Pos(), "channel receive")
+		ch := x.(ChanV)
+		st := p.chans[ch.ID]
+		if st == nil || len(st.buf) == 0 {
+			p.unsupported(fr, in.Pos(), "receive from an empty channel (would block; no scheduler is modelled)")
+		}
+		p.sideMods++
+		v := st.buf[0]
+		st.buf = st.buf[1:]
+		if in.CommaOk {
+			return TupleV{v, tTrue}
+		}
+		return v
 	}
 	panic(fmt.Sprintf("engine: unop %v", in.Op))
 }
